@@ -91,7 +91,7 @@ PROPS = {
     'C04': {
         'technique': 'Verus contracts on the extracted text of Tree::search_node, Model::{get_index,get_parameter}, ModelParameter::from_linear; Kani harnesses for find_tree_index, the PDF row split and the real body of convert_tree (cut from the tree every run; std BTreeMap replaced by a list-backed map)',
         'level_text': 'unbounded proof (any tree size / table size) that the Gaussian handed out is pdf[first tree with matching state][leaf reached by the yes/no walk - 1] and that a PDF row splits into means|variances|msd; partial correctness (termination of the walk assumed)',
-        'level_note': 'PARTIAL: question matching (jlabel-question fast path / regex) is an uninterpreted predicate; section split, header deserializer, tree text parser and window parsing are not under contract; the PDF-block reader of parse_model (counts first, then n rows of pdf_len values per tree through from_linear) is checked bounded on its statements cut from the text with nom's combinators replaced by stand-ins over a decoded number stream (K-pdfblock); the header's character helpers parse_bool / parse_string / next_delimiter on every ASCII input of <= 4 bytes (K-de-text); convert_tree is checked bounded on one-node trees only (single leaf, one question with two leaves, undefined references): the node-order / child-index rule for larger trees gave no answer under CBMC in 20 minutes',
+        'level_note': 'PARTIAL: question matching (jlabel-question fast path / regex) is an uninterpreted predicate; section split, header deserializer, tree text parser and window parsing are not under contract; the PDF-block reader of parse_model (counts first, then n rows of pdf_len values per tree through from_linear) is checked bounded on its statements cut from the text with the combinators of nom replaced by stand-ins over a decoded number stream (K-pdfblock); the character helpers of the header deserializer parse_bool / parse_string / next_delimiter on every ASCII input of <= 4 bytes (K-de-text); convert_tree is checked bounded on one-node trees only (single leaf, one question with two leaves, undefined references): the node-order / child-index rule for larger trees gave no answer under CBMC in 20 minutes',
         'verus': ['tree'],
         'hole_units': ['cond'],
         'assumptions': ['Question::test is a deterministic predicate of (question, label) (uninterpreted test_spec)',
